@@ -4,6 +4,8 @@ cd "$(dirname "$0")/.." || exit 1
 export GOFLAGS=-mod=mod GOPROXY=off GOSUMDB=off GOTOOLCHAIN=local
 mkdir -p bin evidence replays
 go build -o bin/vcheck ./cmd/vcheck || exit 1
-go test -c -vet=off -tags verif -ldflags=-checklinkname=0 -o bin/props.warm.test ./props || exit 1
+for d in props/*/; do
+  go test -c -vet=off -tags verif -ldflags=-checklinkname=0 -o bin/props.warm.test "./$d" || exit 1
+done
 rm -f bin/props.warm.test
 echo setup ok
